@@ -130,23 +130,34 @@ Definition sk_size (data : list byte) (pos : Z) : Z := Z.of_nat (length data) - 
 Definition sk_put_body (data : list byte) (pos : Z) : chunk :=
   mk_chunk data pos (sk_size data pos) (pos + sk_size data pos) false.
 
-(** yield_upload_part_bodies: [n] parts (n from the measured size), each one
-    [fileobj.read(part_size)] into a private BytesIO whose full size is the
-    length of what came back. *)
-Fixpoint sk_parts_loop (n : nat) (c : Z) (st : stream) (k : Z) : list (Z * chunk) * stream :=
+(** yield_upload_part_bodies: [n] parts (n from the measured size); each one
+    reads [part_size] bytes from the user's stream -- looping like
+    _read_from_stream until the part is full or the stream ends ([rd] =
+    [read_from_stream] in the current code) -- into a private BytesIO whose
+    full size is the length of what came back. *)
+Fixpoint sk_parts_loop_with (rd : stream -> Z -> list byte * stream)
+    (n : nat) (c : Z) (st : stream) (k : Z) : list (Z * chunk) * stream :=
   match n with
   | O => ([], st)
   | S m =>
-      let '(d, st1) := raw_read st c in
-      let '(more, st2) := sk_parts_loop m c st1 (k + 1) in
+      let '(d, st1) := rd st c in
+      let '(more, st2) := sk_parts_loop_with rd m c st1 (k + 1) in
       ((k, mk_chunk d 0 c (Z.of_nat (length d)) false) :: more, st2)
   end.
+
+Definition sk_parts_loop := sk_parts_loop_with read_from_stream.
 
 Definition sk_stream (data : list byte) (pos : Z) (scr : list Z) : stream :=
   mkStream (skipn (Z.to_nat pos) data) scr [].
 
 Definition sk_parts (data : list byte) (pos c : Z) (scr : list Z) : list (Z * chunk) * stream :=
   sk_parts_loop (Z.to_nat (num_parts (sk_size data pos) c)) c (sk_stream data pos scr) 1.
+
+(** Before the repair ("F15"): one raw read per part. *)
+Definition sk_parts_unrepaired (data : list byte) (pos c : Z) (scr : list Z)
+  : list (Z * chunk) * stream :=
+  sk_parts_loop_with read_once (Z.to_nat (num_parts (sk_size data pos) c)) c
+                     (sk_stream data pos scr) 1.
 
 (** * The filename manager (UploadFilenameInputManager) *)
 
